@@ -72,6 +72,19 @@ def rule_parse_specials(col, facts):
                             if x[1].endswith(("Options::nan_string", "Options::inf_string", "Options::infinity_string")):
                                 opts.add(last_seg(x[1]))
                     pairs.append((ks[0], frozenset(opts)))
+    # ... or the pairing is written down as data: `[(options.nan_string(), F::NAN), (options.infinity_string(),
+    # F::INFINITY), ..]` iterated by one loop - a tuple that holds the getter's result next to the constant
+    tabled = []
+    for i, b in enumerate(pps.blocks):
+        for st in b["s"]:
+            if st[0] == "=" and st[2][0] == "agg" and st[2][1][0] == "tuple":
+                e = rvalue_expr(pps, st[2], 0)
+                ks = [last_seg(k[1]) for k in expr_consts(e) if last_seg(k[1]) in ("NAN", "INFINITY")]
+                getters = {last_seg(x[1]) for x in expr_calls(e) if x[1].endswith(("Options::nan_string", "Options::inf_string", "Options::infinity_string"))}
+                if len(ks) == 1 and len(getters) == 1:
+                    tabled.append((ks[0], frozenset(getters)))
+    if len(tabled) >= 3:
+        pairs = tabled
     want = {("NAN", frozenset(["nan_string"])), ("INFINITY", frozenset(["inf_string"])), ("INFINITY", frozenset(["infinity_string"]))}
     col.check("PAIR-special", "string->constant", set(pairs) == want, "special strings map to constants as %s" % sorted((k, sorted(v)) for k, v in pairs), pps.loc())
     # sign applied after the match, only under is_negative
